@@ -10,6 +10,84 @@ class Deadlock(Exception):
     pass
 
 
+# ------------------------------------------------------------------------------------------
+# cooperative synchronisation primitives for the library under test
+# ------------------------------------------------------------------------------------------
+# The library is imported with a proxy `threading` module (see loader): whatever locks it creates
+# are these.  Outside a simulated schedule they behave like the real thing; inside one, a thread
+# that would block hands the baton on instead of stalling the only runnable thread.
+
+_real_threading = threading
+ACTIVE = {"sched": None}
+_idents = {}                    # threading.get_ident() -> tid of the running schedule
+
+
+def _me():
+    s = ACTIVE["sched"]
+    if s is None:
+        return None, None
+    return s, _idents.get(_real_threading.get_ident())
+
+
+class CoopLock:
+    _reentrant = False
+
+    def __init__(self):
+        self._real = _real_threading.RLock() if self._reentrant else _real_threading.Lock()
+        self._held = 0
+        self._owner = None
+
+    def acquire(self, blocking=True, timeout=-1):
+        s, tid = _me()
+        if tid is None:
+            return self._real.acquire(blocking, timeout)
+        if self._reentrant and self._owner == tid:
+            self._held += 1
+            return True
+        while self._held:
+            if not blocking:
+                return False
+            if not s.wait_for(tid, lambda: not self._held):
+                raise Deadlock("every thread of the schedule is blocked on a lock")
+        self._held = 1
+        self._owner = tid
+        return True
+
+    def release(self):
+        s, tid = _me()
+        if tid is None and not self._held:
+            return self._real.release()
+        self._held -= 1
+        if self._held <= 0:
+            self._held = 0
+            self._owner = None
+
+    def locked(self):
+        return bool(self._held) or (not self._reentrant and self._real.locked())
+
+    def __enter__(self):
+        self.acquire()
+        return self
+
+    def __exit__(self, *a):
+        self.release()
+        return False
+
+
+class CoopRLock(CoopLock):
+    _reentrant = True
+
+
+def proxy_threading_module():
+    """a stand-in for the `threading` module handed to the library at import time"""
+    import types
+    m = types.ModuleType("threading")
+    m.__dict__.update({k: v for k, v in _real_threading.__dict__.items() if not k.startswith("__")})
+    m.Lock = CoopLock
+    m.RLock = CoopRLock
+    return m
+
+
 class BatonScheduler:
     def __init__(self, rng, mean_gap, max_preempt, trace_prefix, long_jump=0, record_sites=False,
                  targets=None, run_long=0):
@@ -52,6 +130,8 @@ class BatonScheduler:
             self.order.append(tid)
             t = threading.Thread(target=self._thread_main, args=(tid, body), daemon=True)
             threads[tid] = t
+        ACTIVE["sched"] = self
+        _idents.clear()
         for t in threads.values():
             t.start()
         first = self._pick(None)
@@ -62,11 +142,13 @@ class BatonScheduler:
                 self.error = self.error or "thread schedule timed out"
         for t in threads.values():
             t.join(2)
+        ACTIVE["sched"] = None
         if self.error:
             raise RuntimeError(self.error)
 
     # ---- inside the worker threads -----------------------------------------------------
     def _thread_main(self, tid, body):
+        _idents[threading.get_ident()] = tid
         self.events[tid].wait()
         self.events[tid].clear()
         self._arm(tid)
